@@ -254,7 +254,7 @@ func (c *ctx) checkSingle(s *spec, o interface{}, rest []byte) {
 	rep := c.rep
 	m := dump(o, s)
 	rec := recText(m)
-	rc := replayCase{Op: "single", Items: []replayItem{{s.name, rec}}, Rest: vh.Hex(rest)}
+	rc := replayCase{Op: "single", Items: []replayItem{{s.name, replayRec(o, s)}}, Rest: vh.Hex(rest)}
 	rep.Case(s.name+" "+rec, true)
 	rep.Count("single:" + s.name)
 	if n := c.sampled[s.name]; n < 1 && (s.name == "HttpcStepX" || s.name == "TxRecord" || s.name == "MessageStepX" || s.name == "WasService" || s.name == "ProfilePack") {
@@ -375,7 +375,7 @@ func (c *ctx) checkStream(items []item) {
 		m := dump(it.o, it.s)
 		recs = append(recs, m)
 		r := recText(m)
-		rc.Items = append(rc.Items, replayItem{it.s.name, r})
+		rc.Items = append(rc.Items, replayItem{it.s.name, replayRec(it.o, it.s)})
 		itexts = append(itexts, fmt.Sprintf("%d:%s:%s", it.s.code, it.s.name, r))
 		steps = append(steps, it.o.(step.Step))
 		b, _ := encode(it.s, it.o)
@@ -435,9 +435,9 @@ func (c *ctx) checkStream(items []item) {
 	if propOK {
 		if len(outs) != len(items) {
 			propOK = false
-			rep.Fail("property", "stream:count", fmt.Sprintf("wrote %d steps, read %d", len(items), len(outs)), rc)
+			rep.Fail("property", "stream:count", fmt.Sprintf("wrote %d steps, read %d (the per-step comparison is skipped: the steps no longer line up)", len(items), len(outs)), rc)
 		}
-		for k := 0; k < len(outs) && k < len(items); k++ {
+		for k := 0; propOK && k < len(outs) && k < len(items); k++ {
 			it := items[k]
 			if outs[k].typ != it.s.name {
 				propOK = false
@@ -694,7 +694,7 @@ func main() {
 	c := &ctx{env: env, rep: rep, sampled: map[string]int{}}
 	rep.Rule = "objects of every step type (9 registered, 2 unregistered), 3 service types, TxRecord and 3 profile packs with reflection-filled fields " +
 		"(edges of every width class, empty/nil/long strings, blobs and arrays, attribute maps); step streams of 1..200 (thorough 2000) steps; " +
-		"all 2^5 combinations of TxRecord's optional sections (custom fields with nil values included); TxRecords as older agents wrote them (version bytes 10..255 and < 10, multi-trace presence bytes 1..255, caller flags 1,3,4,5,6 and unknown ones) synthesised by the harness; raw streams behind the unregistered type codes 22 and 18; histories of k in {2,3,5} live encodings (step profiles, packs via SetProfile, TxRecord, services) produced one after another with the originals changed in between, decoded in a different order, inputs overwritten afterwards (thorough: also produced from several goroutines); a case is its canonical field text — two cases are distinct when any field differs; all generated cases are non-trivial"
+		"all 2^5 combinations of TxRecord's optional sections (custom fields with nil values included); TxRecords as older agents wrote them (version bytes 10..255 and < 10, multi-trace presence bytes 1..255, caller flags 1,3,4,5,6 and unknown ones) synthesised by the harness; raw streams behind the unregistered type codes 22 and 18; streams of 2..5 service records of mixed types read in turn from one input; decoding a second record into an object used before (decoded into, or populated through its fields and setters); the fields left out of the comparison (AbstractStep.Drop/Opt, AbstractService ids, pack header) are randomised in every generated object; histories of k in {2,3,5} live encodings (step profiles, packs via SetProfile, TxRecord, services) produced one after another with the originals changed in between, decoded in a different order, inputs overwritten afterwards (thorough: also produced from several goroutines); a case is its canonical field text — two cases are distinct when any field differs; all generated cases are non-trivial"
 
 	if env.Replay != "" {
 		runReplay(c, env.Replay)
